@@ -64,9 +64,14 @@ OneValuePerKey == B.err = "" => \A a, b \in B.attrs : a[1] = b[1] => a = b
 Emit == PrintT(<<"G", Len(entries), ToJson([entries |-> entries, dialect |-> DialectName])>>)
 
 (* ----------------------------- universes -------------------------------- *)
-KeysGraph == {"", "q", "w", "foo"}
-KeysAtom  == {"", "w", "x", "foo"}
+KeysGraph == {"", "q", "w", "foo", "_foo"}
+KeysAtom  == {"", "w", "x", "foo", "_foo"}
+(* quick: the free key starts with an underscore (a name that private attributes of other libraries use as well) *)
+KeysGraphQ == {"", "q", "w", "_foo"}
+KeysAtomQ  == {"", "w", "x", "_foo"}
 ValsQ == {"1", "+1", "-0.25", "1e-1", "0", "abc", "R"}
 ValsT == {"1", "+1", "-0.25", "1e-1", ".5", "0", "abc", "R", "S", "2.5e-1"}
-Faults == {[k |-> "w", v |-> "ab=c", eq |-> 2], [k |-> "foo", v |-> "a=b", eq |-> 2]}
+Faults == {[k |-> "w", v |-> "ab=c", eq |-> 2], [k |-> "foo", v |-> "a=b", eq |-> 2],
+           \* two '=' with an empty side: w==1, w=1=
+           [k |-> "w", v |-> "=1", eq |-> 2], [k |-> "w", v |-> "1=", eq |-> 2]}
 =============================================================================
